@@ -8,6 +8,7 @@ Indexes failing the precondition are the negative control (some must show growth
 from __future__ import annotations
 
 import json
+import dataclasses as _dc
 import random
 
 from .. import controls, engine, gen, refsem, sweep, taco
@@ -73,7 +74,7 @@ def loops_at(case, problem, module, group, scale):
     sizes = dict(case.sizes)
     for x in group:
         sizes[x] = sizes[x] * scale
-    c2 = engine.Case(case.assignment, case.formats, sizes, case.inputs, case.capacity, case.origin, case.target, case.tree, case.direct_problem)
+    c2 = _dc.replace(case, sizes=sizes)
     res, _ = engine.run_function(c2, problem, module.definitions[-1])
     return res.counters.loop_iters, res.counters.steps
 
